@@ -101,11 +101,16 @@ class C25(ByteChanSpec):
         # terminal width the tool sees (it wraps its report to it)
         case["columns"] = rng.choice([None, None, None, None, "10", "20", "40", "79", "80", "300"])
         case["inpath"] = rng.choice(INPATHS)
+        # the output directory may still hold the (longer) files of an earlier
+        # run under the same names
+        case["stale"] = rng.random() < 0.3
         return case
 
     def shrink(self, case):
         for c in super(C25, self).shrink(case):
             yield c
+        if case.get("stale"):
+            yield dict(case, stale=False)
         if case["pattern"] != PATTERNS[0]:
             yield dict(case, pattern=PATTERNS[0])
         if case["status"]:
@@ -130,6 +135,14 @@ class C25(ByteChanSpec):
         inpath = case.get("inpath", INPATHS[0])
         fs.put(inpath, data)
         fs.dirs.update({"/sim/out", "/sim/out/sub", "/sim/out/dir.v1"})
+        stale = {}
+        if case.get("stale"):
+            for i in range(3):
+                stem = h_stem(("/sim/out/" + case["pattern"]) % (i,))
+                stale[stem + ".raw"] = b"\xAA" * 70000
+                stale[stem + ".json"] = b'{"stale": "' + b"x" * 5000 + b'"}'
+            for pth, content in stale.items():
+                fs.put(pth, content)
         argv = [inpath, "--output", "/sim/out/" + case["pattern"]]
         if not case["status"]:
             argv.append("--no-status")
@@ -216,6 +229,8 @@ class C25(ByteChanSpec):
             name = base % (i,)
             stem = h_stem(name)
             expect += [stem + ".json", stem + ".raw"]
+        # files of an earlier run that this run had no reason to touch may remain
+        outfiles = [p_ for p_ in outfiles if p_ in expect or not (p_ in stale and fs.get(p_) == stale[p_])]
         if sorted(expect) != outfiles:
             return viol("C25/file-set", "files written %r, expected %r" % (outfiles, sorted(expect)))
         for i, (pic, vp, pcm) in enumerate(lib.pics):
